@@ -190,7 +190,47 @@ def windows_for_zone(ctx, zi, zone):
     return ws
 
 
+def alias_ids(ctx, res):
+    """a VTIMEZONE generated for an id carries that id, also when another spelling of the same zone (a Windows name, an id
+    given to from_tzinfo by the caller) was generated just before in the same process; the observances are the zone's"""
+    import datetime as _dt
+    from icalendar import Timezone
+    from icalendar.timezone import tzp
+    a, b = _dt.date(2019, 1, 1), _dt.date(2022, 1, 1)
+    def subs(t):
+        return sorted(s.to_ical() for s in t.subcomponents)
+    for provider in ("zoneinfo", "pytz"):
+        tzp.use(provider)
+        try:
+            for ids in (("W. Europe Standard Time", "Europe/Berlin"), ("Eastern Standard Time", "America/New_York"),
+                        ("Asia/Tokyo", "Tokyo Standard Time"), ("Europe/Paris", "Romance Standard Time", "Europe/Paris")):
+                comps = []
+                for i in ids:
+                    res.evaluations += 1
+                    t = Timezone.from_tzid(i, tzp, a, b)
+                    comps.append(t)
+                    if str(t.get("TZID")) != i:
+                        res.fail("C13: the VTIMEZONE generated for an id does not carry that id (another spelling of the zone was "
+                                 "generated before)", {"ids": list(ids), "provider": provider}, observed=str(t.get("TZID")), expected=i)
+                if any(subs(t) != subs(comps[0]) for t in comps):
+                    res.fail("C13: two spellings of one zone generate different observances", {"ids": list(ids), "provider": provider})
+            z = tzp.timezone("Australia/Sydney")
+            got = [str(Timezone.from_tzinfo(z, "custom-x", a, b).get("TZID")), str(Timezone.from_tzinfo(z, first_date=a, last_date=b).get("TZID")),
+                   str(Timezone.from_tzinfo(z, "custom-y", a, b).get("TZID"))]
+            res.evaluations += 1
+            if got != ["custom-x", "Australia/Sydney", "custom-y"]:
+                res.fail("C13: from_tzinfo(zone, tzid) does not carry the id it was given", {"provider": provider}, observed=got,
+                         expected=["custom-x", "Australia/Sydney", "custom-y"])
+        finally:
+            tzp.use_default()
+
+
 def run(ctx, res):
+    alias_ids(ctx, res)
+    _run_zones(ctx, res)
+
+
+def _run_zones(ctx, res):
     import zoneinfo
     from icalendar.timezone import tzp
     rng = common.rng_for(ctx.seed, "c13")
